@@ -63,7 +63,11 @@ func spawn(argv []string, dir string, env []string, stdin []byte, chunks []int, 
 				if n > len(stdin)-pos {
 					n = len(stdin) - pos
 				}
-				if n <= 0 {
+				if n < 0 {
+					time.Sleep(time.Duration(-n) * time.Millisecond) // a quiet period on stdin (shapes arrival only)
+					continue
+				}
+				if n == 0 {
 					continue
 				}
 				if _, err := pw.Write(stdin[pos : pos+n]); err != nil {
